@@ -250,7 +250,7 @@ class C14(Prop):
 
     def extra_checks(self, ctx):
         import os
-        ctx['ev']['model_variant'] = os.environ.get('C14_MODEL', 'pinned')
+        ctx['ev']['model_variant'] = os.environ.get('C14_MODEL', 'repaired')
         return []
 
     # ---- reporting -------------------------------------------------------------------------------
